@@ -714,6 +714,23 @@ func init() {
 			if g.R.Chance(1, 8) {
 				b = append([]string{}, a...)
 			}
+			if g.R.Chance(1, 10) {
+				// more than a thousand distinct IDs in one call, none overlapping (so both lists are
+				// walked to the end): the size at which a bounded per-ID memo or parse cache starts
+				// to recycle entries while a sibling call still reads them; linear cost
+				z := g.R.Range(14, 24)
+				n := int64(1100 + g.R.Intn(4000))
+				n1 := n * g.R.Range(2, 8) / 10
+				f, x0, y := g.R.Range(0, 40), g.R.Range(0, pow2(z)-n-1), g.R.Range(0, pow2(z)-1)
+				a, b = nil, nil
+				for i := int64(0); i < n; i++ {
+					if id := spID(z, f, x0+i, y); i < n1 {
+						a = append(a, id)
+					} else {
+						b = append(b, id)
+					}
+				}
+			}
 			return &Call{Op: "overlap_sp_arr", IDs: a, IDs2: b}
 		},
 		Exec: func(c *Call, a *Args) Result { return boolRes(detector.CheckSpatialIdsArrayOverlap(a.IDs, a.IDs2)) }})
